@@ -12,7 +12,8 @@ import (
 type DHCPCfg struct {
 	Home      netip.Prefix // home LAN
 	Netfilter netip.Prefix // netfilter (captured) subnet
-	HostIP    netip.Addr   // our address = server id, and router of the netfilter subnet
+	HostIP    netip.Addr   // our address on the LAN = server id
+	Gateway   netip.Addr   // our address in the netfilter subnet (Config.NetfilterIP): the router captured clients get; HostIP when unset
 	RouterIP  netip.Addr   // the real router
 	DNS       netip.Addr   // configured DNS for the home subnet
 	FamilyDNS netip.Addr   // DNS handed to captured clients
@@ -203,6 +204,9 @@ func (m *DHCPMon) Request(msg refdec.DHCPMsg, srcIP netip.Addr, captured bool) {
 
 func (m *DHCPMon) subnet(captured bool) (lan netip.Prefix, gw, dns netip.Addr, name string) {
 	if captured {
+		if m.Cfg.Gateway.IsValid() {
+			return m.Cfg.Netfilter, m.Cfg.Gateway, m.Cfg.FamilyDNS, "captured"
+		}
 		return m.Cfg.Netfilter, m.Cfg.HostIP, m.Cfg.FamilyDNS, "captured"
 	}
 	return m.Cfg.Home, m.Cfg.RouterIP, m.Cfg.DNS, "normal"
@@ -280,6 +284,10 @@ func (m *DHCPMon) Reply(rep refdec.DHCPMsg, tracked func(netip.Addr) (refdec.MAC
 	}
 	if a == m.Cfg.HostIP {
 		add("C11", "dhcp:reserved:own:"+kind, "%s of our own address %v", kind, a)
+	}
+	if a == m.Cfg.Gateway && a != m.Cfg.HostIP {
+		// the host's second address: what every captured client is told to route through
+		add("C11", "dhcp:reserved:own-gateway:"+kind, "%s of %v, our own address in the netfilter subnet (the router of captured clients)", kind, a)
 	}
 	if a == m.Cfg.RouterIP {
 		add("C11", "dhcp:reserved:router:"+kind, "%s of the router address %v", kind, a)
